@@ -5,6 +5,8 @@ def step (line : String) : String :=
   match line.trimAscii.toString.splitOn " " with
   | "ffilter" :: args => handleFFilter args
   | "ffapply" :: args => handleFFApply args
+  | "fflines" :: args => handleFFLines args
+  | "ffsrc" :: args => handleFFSrc args
   | _ => "bad-op"
 
 partial def loop (h : IO.FS.Stream) (out : IO.FS.Stream) : IO Unit := do
